@@ -18,9 +18,12 @@ Definition documented (w : world) : Z :=
       else 0
   end.
 
-(** a report exists exactly when a run with --output completed *)
-Definition report_expected (w : world) : bool :=
+(** a (complete) report exists exactly when a run with --output completed: status 0 and --output => the report;
+    in every other case no complete report (a truncated file is not a report) *)
+Definition report_due (w : world) : bool :=
   match w_argparse w with Args => Z.eqb (documented w) 0 && w_output w | _ => false end.
+Definition is_full (r : report_state) : bool := match r with RFull => true | _ => false end.
+Definition report_conforms (w : world) (r : report_state) : bool := Bool.eqb (is_full r) (report_due w).
 
 (** input classes for which no status is documented and an exception escapes (known findings): the statement of
     [C20_exit_table] is about the worlds outside them *)
